@@ -491,17 +491,25 @@ void case_quadratic(vf::ctx_t& c)
         const lvec_t xL   = state.x().vector().cast<long double>();
         const auto   err  = static_cast<double>((xL - xsL).norm());
         const auto   ref_residual = static_cast<double>(resL.cwiseAbs().maxCoeff());
-        const double bound = std::sqrt(static_cast<double>(n)) * epsilon * std::max(1.0, std::fabs(crit.f)) / lmin;
+        // the bound is exact mathematics for the exact gradient; the solver can only test the gradient that the
+        // (harness-owned) function computes in double, whose rounding error is at most gamma (standard bound for
+        // A*x+a); gamma is below 1e-2 of epsilon*max(1,|f|) in the worst corner of the class, typically 1e-6 of it
+        const evec_t xabs  = state.x().vector().cwiseAbs();
+        const double gamma = 4.0 * static_cast<double>(n + 2) * 1.1102230246251565e-16 *
+                             (A.cwiseAbs() * xabs + a.cwiseAbs()).maxCoeff();
+        const double exact = std::sqrt(static_cast<double>(n)) * epsilon * std::max(1.0, std::fabs(crit.f)) / lmin;
+        const double bound = std::sqrt(static_cast<double>(n)) * (epsilon * std::max(1.0, std::fabs(crit.f)) + gamma) / lmin;
         c.count("a_clause_distance");
+        c.maxc("a_gamma_over_threshold_ppm", static_cast<int64_t>(std::min(1e9, 1e6 * (bound - exact) / exact)));
         // 1e-9: rounding of the oracle's own arithmetic (lambda_min of the rounded A, f in double)
         if (!(err <= bound * (1.0 + 1e-9)))
         {
             c.violation("C01|quadratic|distance|" + id,
-                        witness().kv("error", err).kv("bound", bound).kv("f", crit.f).kv("recomputed_test", crit.test)
+                        witness().kv("error", err).kv("bound", bound).kv("bound_exact_arithmetic", exact).kv("f", crit.f).kv("recomputed_test", crit.test)
                             .kv("status", status_name(state.status())).kv("evaluations", static_cast<long long>(evals))
                             .kv("reference_residual", ref_residual).vec("x", state.x()));
         }
-        c.maxc("a_error_over_bound_permille", static_cast<int64_t>(std::min(1e9, 1000.0 * err / bound)));
+        c.maxc("a_error_over_bound_permille", static_cast<int64_t>(std::min(1e9, 1000.0 * err / exact)));
     }
 
     if (evals >= 3)
